@@ -17,12 +17,17 @@ caller's `buf = buf[n:]`); `none` is the Go error return.
 -/
 namespace Amino
 
-/-- `binary.PutUvarint`: `for x >= 0x80 { buf[i] = byte(x) | 0x80; x >>= 7 }; buf[i] = byte(x)`. -/
-def encodeUvarint (x : Nat) : Bytes :=
-  if x < 128 then [UInt8.ofNat x]
-  else UInt8.ofNat (x % 128 + 128) :: encodeUvarint (x / 128)
-termination_by x
-decreasing_by omega
+/-- The loop of `binary.PutUvarint`: `for x >= 0x80 { buf[i] = byte(x) | 0x80; x >>= 7 }; buf[i] = byte(x)`.
+`fuel` bounds the number of continuation bytes (structural recursion, so that the model evaluates in
+the kernel). -/
+def encodeUvarintFuel : Nat → Nat → Bytes
+  | 0, x => [UInt8.ofNat x]
+  | fuel + 1, x =>
+    if x < 128 then [UInt8.ofNat x]
+    else UInt8.ofNat (x % 128 + 128) :: encodeUvarintFuel fuel (x / 128)
+
+/-- `binary.PutUvarint` for a `uint64`: at most 9 continuation bytes + 1 final byte. -/
+def encodeUvarint (x : Nat) : Bytes := encodeUvarintFuel 9 x
 
 /-- Loop of `binary.Uvarint`: `i` is the byte index, `acc` the value collected so far (the shift is
 `7*i`).  `i == MaxVarintLen64` ⇒ overflow; a final byte at index 9 greater than 1 ⇒ overflow; running
